@@ -127,13 +127,24 @@ fn version_workspaces(r: &mut Rng, k: usize) -> (Vec<ModelWs>, Vec<&'static str>
     (versions, kinds)
 }
 
-fn change_between(a: &ModelWs, b: &ModelWs) -> Change {
+/// The change from version a to version b. One edited file in three gets its texts batched:
+/// an intermediate draft first, the final text last (a didChange with several content
+/// changes does that); the second member says whether that happened.
+fn change_between(a: &ModelWs, b: &ModelWs) -> (Change, bool) {
     let mut c = Change::default();
     let mut structural = false;
+    let mut batched = false;
     for f in &b.files {
         match a.files.iter().find(|x| x.id == f.id) {
             Some(old) if old.text == f.text => {}
-            Some(_) => c.change_file(FileId(f.id), Arc::from(f.text.as_str())),
+            Some(old) => {
+                if fnv(f.text.as_bytes()) % 3 == 0 {
+                    let draft = format!("{}\n// draft that never was a version\npub fn draft_only() {{ 0 }}\n", old.text);
+                    c.change_file(FileId(f.id), Arc::from(draft.as_str()));
+                    batched = true;
+                }
+                c.change_file(FileId(f.id), Arc::from(f.text.as_str()))
+            }
             None => {
                 c.change_file(FileId(f.id), Arc::from(f.text.as_str()));
                 structural = true;
@@ -148,7 +159,7 @@ fn change_between(a: &ModelWs, b: &ModelWs) -> Change {
     if deps_a != deps_b {
         c.set_package_graph(b.graph());
     }
-    c
+    (c, batched)
 }
 
 fn run_scenario(rep: &mut Report, case_seed: u64) {
@@ -208,6 +219,7 @@ fn run_scenario(rep: &mut Report, case_seed: u64) {
     // main thread: owns the host, never holds a snapshot while applying a change
     let mut host = AnalysisHost::new();
     host.apply_change(versions[0].full_change());
+    let mut batched_changes = 0u64;
     let mut req_ms: Vec<u128> = vec![0];
     let mut apply_us: Vec<u128> = vec![0];
     for v in 0..versions.len() {
@@ -222,7 +234,10 @@ fn run_scenario(rep: &mut Report, case_seed: u64) {
             break;
         }
         std::thread::sleep(Duration::from_micros(r.below(3000) as u64));
-        let change = change_between(&versions[v], &versions[v + 1]);
+        let (change, batched) = change_between(&versions[v], &versions[v + 1]);
+        if batched {
+            batched_changes += 1;
+        }
         let t_req = t0.elapsed().as_millis();
         let ta = Instant::now();
         host.apply_change(change);
@@ -234,6 +249,7 @@ fn run_scenario(rep: &mut Report, case_seed: u64) {
     stop.store(true, Ordering::SeqCst);
     // a final empty change cancels the last sweeps (as the server would on the next edit)
     host.apply_change(Change::default());
+    rep.count("changes_with_several_texts_of_one_file", batched_changes);
     drop(txs);
     for h in handles {
         let _ = h.join();
